@@ -72,7 +72,136 @@ def register(prop, run, KERNELS, C01_COVERS):
          text=step_txt + "The harness StoreFile logs every read; the independent decoder supplies the byte ranges of every value and of the root record; assertion: opening reads only the root record (at most 2 reads, none below it), key-only operations issue no read intersecting any value range.",
          note=NOTE, technique=TECH, design_ref="DESIGN.md §4 C19")
 
-    claimed = {"C01", "C06", "C09", "C13", "C14", "C19"}
+    hist_txt = ("Bounded symbolic model checking of the real SSA of gkvlite over API histories from the empty store: the operation "
+                "sequence is enumerated (every sequence of the listed operations up to K steps), item keys/values/priorities are SMT "
+                "variables so the solver decides which nodes are shared, copied or marked; after every step every open handle is re-read "
+                "in full and compared with its model. ")
+    HBASE = dict(nmin=0, nmax=0)
+
+    # op bit numbers (harness/hist.go): Set0 Delete1 Flush2 Evict3 Snapshot4 SnapOfSnap5 CloseSnap6 RemoveColl7
+    # SetCollExisting8 SetCollNew9 CloseStore10 Churn11 PinnedVisit12 Reopen13 GetRelease14 SnapRevert15
+    def mask(*bits):
+        return sum(1 << b for b in bits)
+
+    prop("C02",
+         quick=[run("C02_step", covers=["done"], nmax=2, cache=1),
+                run("C02_step", covers=["done", "trailing-unflushed", "second-generation"], nmax=1, cache=1, ncolls=2, trailing=1, preop=1, secondgen=1, budget=900)],
+         thorough=[run("C02_step", covers=["done"], nmax=3, cache=1, klen=2, vlen=2, budget=3000),
+                   run("C02_step", covers=["done", "trailing-unflushed", "second-generation"], nmax=2, cache=1, ncolls=2, trailing=1, preop=1, secondgen=1, budget=3000),
+                   run("C02_step", covers=["done", "trailing-unflushed"], nmax=1, cache=1, ncolls=2, trailing=2, preop=1, secondgen=1, budget=3000)],
+         outside=["more than 2 collections; names other than a, b, c", "more than 2 unflushed trailing operations", "trees with more than 3 items at the flush"],
+         text=step_txt + "Flush from every constructed state (every dirty/persisted frontier of every shape), then re-open the same file in a new Store: names, keys, values, priorities and totals must equal the model at the flush, whatever unflushed operations (mutations, SetCollection, RemoveCollection) followed; a second generation (mutate the re-opened store, flush, re-open) is checked the same way.",
+         note=NOTE, technique=TECH, design_ref="DESIGN.md §4 C02")
+
+    prop("C03",
+         quick=[run("C03_torn", covers=["done", "crash-inside-root-record", "crash-inside-data", "recovered-last-flush", "continued"], prior=1, inflight=1, vlen=1),
+                run("C03_junk", covers=["done", "recovered-last-flush", "continued"], prior=1, vlen=1, junkmin=0, junkmax=24)],
+         thorough=[run("C03_torn", covers=["done", "crash-inside-root-record", "crash-inside-data", "recovered-last-flush", "continued"], prior=2, inflight=2, vlen=2, budget=3000),
+                   run("C03_torn", covers=["done", "crash-inside-root-record"], prior=1, inflight=1, vlen=7, budget=3000),
+                   run("C03_junk", covers=["done", "recovered-last-flush", "continued"], prior=2, vlen=2, junkmin=0, junkmax=45, budget=3000)],
+         outside=["values of 8 or more bytes (long enough, with the priority field, to spell both end markers and a consistent trailer: the adversarial value the property excludes)", "junk tails of 46 bytes or more (a complete self-consistent root record fits)", "media faults that reorder or alter already written bytes", "more than 2 prior flushes / 2 collections"],
+         text="Bounded symbolic model checking of the real SSA: the crash image is rebuilt from the harness file's write log at EVERY write boundary and EVERY byte offset of the write in flight (one path each), with key/value/priority bytes symbolic, so whether uncommitted bytes can be mistaken for a root record is decided by the solver; a second harness appends a fully symbolic junk tail (0..24 / 0..45 bytes) to a durable prefix. NewStore on the image must yield exactly the last completely written flush (or empty / the documented no-roots error), and a further mutation+Flush on the recovered store must be durable.",
+         note=NOTE, technique=TECH, design_ref="DESIGN.md §4 C03")
+
+    prop("C04",
+         quick=[run("C04_hist", covers=["done", "had-snapshot"], store=0, k=4, snaps=2, opmask=mask(0, 1, 4, 5, 6)),
+                run("C04_hist", covers=["done", "had-snapshot"], store=1, k=3, snaps=2, opmask=mask(0, 1, 2, 3, 4, 6, 7, 8, 10, 15))],
+         thorough=[run("C04_hist", covers=["done", "had-snapshot"], store=1, k=5, snaps=2, opmask=mask(0, 1, 2, 3, 4, 5, 6), budget=3000),
+                   run("C04_hist", covers=["done", "had-snapshot"], store=1, k=4, snaps=3, opmask=mask(0, 1, 2, 3, 4, 5, 6, 7, 8, 9, 10, 15), budget=3000)],
+         outside=["histories longer than K = 4 (quick) / 5 (thorough) steps", "more than 2 / 3 snapshots, more than collections a, b", "FlushRevert on the original while snapshots are open (documented as unsupported)", "1-byte keys and values"],
+         text=hist_txt + "Operations: Set, Delete, Flush, Evict, Snapshot (of the store or of a snapshot), close a snapshot, snapshot.FlushRevert, RemoveCollection, SetCollection on an existing name, Store.Close. Snapshots must keep reading the contents at their creation, must refuse Set/Delete/Flush, and snapshot-side operations must not write to the file.",
+         note=NOTE, technique=TECH, design_ref="DESIGN.md §4 C04")
+
+    prop("C10",
+         quick=[run("C10_hist", covers=["done"], store=0, k=3, snaps=1, opmask=mask(0, 1, 4, 6, 7, 8, 10, 11, 12)),
+                run("C10_hist", covers=["done"], store=0, k=4, snaps=1, opmask=mask(0, 4, 6, 8, 12))],
+         thorough=[run("C10_hist", covers=["done"], store=0, k=4, snaps=1, opmask=mask(0, 1, 4, 6, 7, 8, 10, 11, 12), budget=3000),
+                   run("C10_hist", covers=["done"], store=1, k=4, snaps=2, opmask=mask(0, 1, 2, 3, 4, 6, 8, 12), budget=3000)],
+         outside=["histories longer than K = 3..4 steps", "more than two stores sharing the free lists"],
+         text=hist_txt + "Two stores share the process-wide free lists (the package initialiser is executed by the engine on every path). After every step, besides re-reading all handles, the harness inspects the heap directly: no node reachable from a live root or pinned version is on the node free list, no node / nodeLoc / rootNodeLoc is on a free list twice; then unrelated allocation in the other store forces reuse of anything freed and everything is read again.",
+         note=NOTE, technique=TECH, design_ref="DESIGN.md §4 C10")
+
+    prop("C12",
+         quick=[run("C12_hist", covers=["done", "final-reopen"], store=1, k=3, opmask=mask(0, 1, 2, 7, 8, 9, 13), final_reopen=1),
+                run("C12_hist", covers=["done"], store=0, k=4, opmask=mask(0, 7, 8, 9), final_reopen=0)],
+         thorough=[run("C12_hist", covers=["done", "final-reopen"], store=1, k=4, opmask=mask(0, 1, 2, 7, 8, 9, 13), final_reopen=1, budget=3000),
+                   run("C12_hist", covers=["done"], store=0, k=5, opmask=mask(0, 7, 8, 9), final_reopen=0, budget=3000)],
+         outside=["names other than a, b", "histories longer than K = 3..5 steps"],
+         text=hist_txt + "Operations: SetCollection on new and existing names, RemoveCollection, Set/Delete through the handles returned, Flush, re-open. GetCollectionNames must be the sorted model name set, contents of every collection must equal its model, and after a final re-open only flushed changes are visible.",
+         note=NOTE, technique=TECH, design_ref="DESIGN.md §4 C12")
+
+    prop("C15",
+         quick=[run("C15_hist", covers=["done"], store=1, k=3, snaps=1, readback=1, opmask=mask(0, 1, 2, 3, 4, 6, 7, 13, 14)),
+                run("C15_hist", covers=["done"], store=0, k=3, snaps=1, readback=1, opmask=mask(0, 1, 4, 6, 8, 12, 14))],
+         thorough=[run("C15_hist", covers=["done"], store=1, k=4, snaps=1, readback=1, opmask=mask(0, 1, 2, 3, 4, 6, 7, 13, 14), budget=3000),
+                   run("C15_hist", covers=["done"], store=0, k=4, snaps=2, readback=1, opmask=mask(0, 1, 4, 5, 6, 8, 12, 14), budget=3000)],
+         outside=["histories longer than K = 3..4 steps", "more than collections a, b"],
+         text=hist_txt + "ItemAlloc/ItemAddRef/ItemDecRef callbacks keep a count per *Item: no count may drop below zero, every item handed to the caller or cached in an open handle must have a positive count, and after closing the store and all snapshots every count must be back to the caller's own references.",
+         note=NOTE, technique=TECH, design_ref="DESIGN.md §4 C15")
+
+    prop("C07",
+         quick=[run("C07_fault", covers=["done", "fault-injected", "two-generations"], nmax=2, cache=0, vlenmin=1, faultops=4095, maxfail=6),
+                run("C07_fault", covers=["done", "fault-injected"], nmin=3, nmax=3, cache=0, vlenmin=1, faultops=192, maxfail=8)],
+         thorough=[run("C07_fault", covers=["done", "fault-injected", "two-generations"], nmax=2, cache=0, vlenmin=1, faultops=4095, maxfail=10, klen=2, budget=3000),
+                   run("C07_fault", covers=["done", "fault-injected"], nmin=3, nmax=3, cache=0, vlenmin=1, faultops=4095, maxfail=10, budget=3000),
+                   run("C07_fault", covers=["done", "fault-injected"], nmin=4, nmax=4, cache=0, vlenmin=1, faultops=192, maxfail=12, budget=3000)],
+         outside=["more than one injected failure per history", "trees with more than 3 (quick: Set/Delete only at 3) / 4 items", "failures of Stat/Truncate other than at open / FlushRevert"],
+         text=step_txt + "From a freshly re-opened store (everything unloaded) the k-th StoreFile call of one API call fails, k enumerated over all calls; a failing WriteAt first writes a prefix whose length is a symbolic integer. Assertions: an error is returned, no panic, the visible contents are unchanged, the file image re-opens to the last durable state, a follow-up mutation / retried Flush behaves as if the failed call had never been made, and no live node is on a free list afterwards.",
+         note=NOTE, technique=TECH, design_ref="DESIGN.md §4 C07")
+
+    prop("C08",
+         quick=[run("C08_revert", covers=["done", "reverted-to-empty", "reverted-to-flush", "continued"], store=1, flushes=2, unwind_violation=1, step_budget=400000),
+                run("C08_revert", covers=["memonly"], store=0, flushes=0, unwind_violation=1)],
+         thorough=[run("C08_revert", covers=["done", "reverted-to-empty", "reverted-to-flush", "continued"], store=1, flushes=3, unwind_violation=1, step_budget=800000, budget=3000),
+                   run("C08_revert", covers=["memonly"], store=0, flushes=0, unwind_violation=1)],
+         outside=["more than 2 (quick) / 3 (thorough) flushes before the reverts", "collections other than a", "1-byte keys and values"],
+         text="Bounded symbolic model checking of the real SSA: histories with f flushes of symbolic data (optionally across a re-open, optionally with an unflushed change pending) followed by r = 1..f+1 consecutive FlushReverts. Termination is checked with a code-derived step cap (each scan iteration strictly decreases Store.size): exceeding it is reported as the violation and confirmed natively under a watchdog. State, file length and a re-open must match the model's flush stack after each revert; new flushes after a revert must be durable; memory-only stores must reject the call.",
+         note=NOTE, technique=TECH, design_ref="DESIGN.md §4 C08")
+
+    prop("C11",
+         quick=[run("C11_copyto", covers=["done", "durable-copy"], nmax=2, cache=2, ncolls=1),
+                run("C11_copyto", covers=["done", "durable-copy"], nmax=1, cache=1, ncolls=2)],
+         thorough=[run("C11_copyto", covers=["done", "durable-copy"], nmax=2, cache=2, ncolls=2, budget=3000),
+                   run("C11_copyto", covers=["done", "durable-copy"], nmin=3, nmax=3, cache=2, ncolls=1, budget=3000)],
+         outside=["sources with more than 2 collections or more than 3 items per collection", "flushEvery values other than -1, 0, 1, 2, total+1"],
+         text=step_txt + "CopyTo from a writable store, a snapshot or a freshly re-opened file (custom comparator included), every flushEvery in {-1,0,1,2,total+1}: the destination must hold exactly the model; with flushEvery > 0 the destination file must re-open and independently decode to the same state and contain exactly one item record per live item; the source contents and the source file (no write, no truncate, same length) must be unchanged.",
+         note=NOTE, technique=TECH, design_ref="DESIGN.md §4 C11")
+
+    prop("C16",
+         quick=[run("C16_enum", covers=["done", "empty"], nmax=4, store=0, cache=0),
+                run("C16_boundary", covers=["done"], nmin=1023, nmax=1026, rand_concrete=1, step_budget=60000000, budget=900,
+                    note="engine-executed boundary sizes with concrete keys: not a solver claim over contents")],
+         thorough=[run("C16_enum", covers=["done", "empty"], nmax=5, store=0, cache=0, budget=3000),
+                   run("C16_enum", covers=["done"], nmin=6, nmax=6, store=0, cache=0, budget=3000),
+                   run("C16_boundary", covers=["done"], nmin=1023, nmax=1026, rand_concrete=1, step_budget=60000000, budget=3000,
+                       note="engine-executed boundary sizes with concrete keys: not a solver claim over contents"),
+                   run("C16_boundary", covers=["done"], nmin=2047, nmax=2050, rand_concrete=1, step_budget=120000000, budget=3000,
+                       note="engine-executed boundary sizes with concrete keys: not a solver claim over contents"),
+                   run("C16_boundary", covers=["done"], nmin=3071, nmax=3074, rand_concrete=1, step_budget=200000000, budget=3000,
+                       note="engine-executed boundary sizes with concrete keys: not a solver claim over contents")],
+         outside=["symbolic contents for collections larger than 4..6 items (lenBlock >= 2 needs n > 1024: those sizes are executed with concrete keys, the block shuffle fixed to the identity)", "sizes other than 0..6 and 1023..1026, 2047..2050, 3071..3074"],
+         text=step_txt + "Len() must equal n; VisitItemsAscendBlockEx (block order = every permutation, enumerated) and VisitItemsRandom (rand.Intn symbolic) must present each key exactly once (multiset equality decided by the solver over symbolic keys). Sizes around 1024/2048/3072 are executed by the same engine on directly built trees with concrete keys.",
+         note=NOTE, technique=TECH, design_ref="DESIGN.md §4 C16")
+
+    prop("C17",
+         quick=[run("C17_rel", covers=["done", "reopened"], k=2, vlen=2, allsubsets=0)],
+         thorough=[run("C17_rel", covers=["done", "reopened"], k=3, vlen=2, allsubsets=0, budget=3000),
+                   run("C17_rel", covers=["done", "reopened"], k=2, vlen=2, allsubsets=1, budget=3000)],
+         outside=["tools/slab (imports go-slab; not encoded)", "histories longer than K = 2..3 steps", "callback subsets other than {all, each single callback} in the quick tier (all 255 non-empty subsets in the thorough tier)"],
+         text="Relational (self-composition) bounded symbolic model checking: the same symbolic operation sequence is applied to two stores, one with a subset of behaviourally neutral callbacks (custom ItemAlloc, ItemValLength, chunked ItemValWrite/ItemValRead, identity BeforeItemWrite/AfterItemRead, KeyCompareForCollection, no-op ref callbacks); every result must be pairwise equal, the two flushed files must be byte-for-byte equal, and the file must decode independently to the model.",
+         note=NOTE, technique=TECH, design_ref="DESIGN.md §4 C17")
+
+    prop("C18",
+         quick=[run("C18_iter", covers=["done", "closed", "exhausted"], nmax=2, store=0, cache=0, preemptions=1),
+                run("C18_reentrant", covers=["done"], nmin=1, nmax=2, store=1, cache=2)],
+         thorough=[run("C18_iter", covers=["done", "closed", "exhausted"], nmax=3, store=0, cache=0, preemptions=2, budget=3000),
+                   run("C18_iter", covers=["done", "closed", "exhausted"], nmax=2, store=1, cache=2, preemptions=1, budget=3000),
+                   run("C18_reentrant", covers=["done"], nmin=1, nmax=3, store=1, cache=2, budget=3000)],
+         outside=["more than 2 / 3 items", "more than 1 / 2 pre-emptive context switches per schedule (switches at blocking channel operations are free)", "weak-memory behaviours (sequential consistency assumed)"],
+         text="Bounded symbolic model checking with a controlled scheduler: the iterator's producer goroutine and the consumer are interpreted goroutines, every channel operation is a scheduling decision enumerated like any other path decision; the consumer performs every sequence of Next/Close calls up to n+2. After Close or exhaustion Next must be false, the producer must have exited (not merely be blocked), the pinned version must be released, and no schedule may deadlock. Re-entrant visitor callbacks (reads, mutations, Snapshot, Flush, Evict inside a visit) must complete without self-deadlock on the modelled mutexes and see the pinned version.",
+         note=NOTE, technique="symbolic execution of go/ssa + SMT with an enumerated scheduler (context-bounded)", design_ref="DESIGN.md §4 C18")
+
+    claimed = {"C01", "C02", "C03", "C04", "C06", "C07", "C08", "C09", "C10", "C11", "C12", "C13", "C14", "C15", "C16", "C17", "C18", "C19"}
     for pid in ALL:
         if pid not in claimed:
             NOT_APPLICABLE.append({"property_id": pid, "reason": "check not built yet in this session (interim state; see DESIGN.md build order)"})
